@@ -210,6 +210,30 @@ def oracleC06 (rest real : String) : String :=
     else "ok"
   | _, _ => "ok"
 
+/-! ### history independence (C05 "never depends on the items that preceded it", C20) -/
+
+/-- `HIST`: run 0 is the byte-concatenation of runs 1… (each one self-contained segment, one delivery, fresh
+    terminal): the real tokens of the whole stream must be the concatenation of the segments' own tokens -/
+def oracleHist (tag rest real : String) : String :=
+  let cruns := caseRuns rest
+  let rruns := realRuns real
+  match cruns, rruns with
+  | whole :: segs, rwhole :: rsegs =>
+    if whole.flatten ≠ (segs.map List.flatten).flatten then s!"FAIL {tag} generator: run 0 is not the concatenation of the segments"
+    else if segs.length ≠ rsegs.length then s!"FAIL {tag} answer has a different number of runs"
+    else
+      -- for C20 only tokens that name an abstract key matter (`K<key>.…` with key above `del`)
+      let abstractTok (t : String) : Bool :=
+        t.startsWith "K" && (((t.drop 1).toString.splitOn ".").headD "0").toNat?.getD 0 > Consts.vk_del
+      let keep (ts : List String) : List String := if tag = "C20" then ts.filter abstractTok else ts
+      let expect := keep (rsegs.flatMap runToks)
+      let got := keep (runToks rwhole)
+      if got = expect then "ok"
+      else
+        let k := ((got.zip expect).takeWhile fun (a, b) => a = b).length
+        s!"FAIL {tag} decoding depends on what preceded: token {k} of the stream is {got.getD k "(none)"}, the segment alone gives {expect.getD k "(none)"}"
+  | _, _ => "ok"
+
 /-! ### C07 -/
 
 /-- one `garbage…,letters,suffix / suffix` pair -/
@@ -300,6 +324,7 @@ def oracle (kind : Char) (cfg rest real : String) : Option String :=
   match words cfg with
   | "C05" :: items => some (oracleC05 items rest real)
   | "C06" :: _ => some (oracleC06 rest real)
+  | "HIST" :: t :: _ => some (oracleHist t rest real)
   | "C07" :: _ => some (oracleC07 rest real)
   | "C20" :: ws => some (oracleC20 ws rest real)
   | _ => some "ok"
